@@ -110,8 +110,8 @@ def plainKind : Instruction → Bool
   | .include _ | .declaration _ | .fence _ | .reset _ | .measurement _ | .pragma _ | .swapPhases _ => true
   | _ => false
 
-theorem plainKind_provedKind {i : Instruction} (h : plainKind i = true) : provedKind i = true := by
-  cases i <;> simp_all [plainKind, provedKind]
+theorem plainKind_provedKind {i : Instruction} (h : plainKind i = true) : lineKind i = true := by
+  cases i <;> simp_all [plainKind, lineKind]
 
 theorem noPlaceholder_of (q : Qubit) (hw : qubitOk q = true) (hp : qubitIsPh q = false) :
     noPlaceholder q = true := by
@@ -344,11 +344,11 @@ theorem rt_of_apiKind (F : NumFmt) (d : Nat) (i : Instruction) (hw : wellFormed 
     all_goals
       first
       | (simp [apiKind, plainKind] at hk; done)
-      | (exact rt_of_provedKind F d _ (parsedInstr_of_wellFormed _ hw hp (by simpa [apiKind] using hk))
+      | (exact rt_of_lineKind F d _ (parsedInstr_of_wellFormed _ hw hp (by simpa [apiKind] using hk))
           (plainKind_provedKind (by simpa [apiKind] using hk)) hn hd)
 
-theorem apiKind_provedKind {i : Instruction} (h : apiKind i = true) : provedKind i = true := by
-  cases i <;> simp_all [apiKind, plainKind, provedKind]
+theorem apiKind_provedKind {i : Instruction} (h : apiKind i = true) : lineKind i = true := by
+  cases i <;> simp_all [apiKind, plainKind, lineKind]
 
 theorem hasPlaceholders_false (L : List Instruction) (h : ∀ i ∈ L, hasPlaceholder i = false) :
     hasPlaceholders L = false := by
